@@ -136,6 +136,8 @@ def _blocks(xs, size):
 def gen_cases(tier, seed):
     cases = []
     thorough = tier == "thorough"
+    # the quick tier runs part of the aggregators on a stated structural sublist of the alphabet only
+    SPEC["exhaustive"] = thorough
     for m in (2, 3):
         for n in (1, 2, 3):
             reps = row_orbit_reps(m, n)
